@@ -344,10 +344,16 @@ def _count_true(v):
     nm, a = u
     if nm in ("call:np.count_nonzero", "call:np.sum", "call:sum", "call:.sum") and len(a) == 1 and is_boolean(a[0]):
         return a[0]
+    if nm == "idx" and len(a) == 2 and const_of(a[1]) == 0 and app(a[0], "attr:shape"):
+        nm, a = "call:len", app(a[0], "attr:shape")          # X.shape[0] is len(X)
     if nm in ("attr:size", "call:len", "call:np.size") and len(a) == 1:
         i = app(a[0], "idx")
         if i and const_of(i[1]) == 0 and app(i[0], "nonzero") and is_boolean(app(i[0], "nonzero")[0]):
             return app(i[0], "nonzero")[0]
+        # the items of X selected by the boolean vector M (X[M]): there are some exactly when M has a true element (the callers compare the
+        # count with 0 / 1 only; X has at least one column)
+        if i and len(i) == 2 and is_boolean(i[1]) and head(i[1]) not in ("any", "all"):
+            return i[1]
         # positions of A that are not / are also positions of B: the true elements of A & ~B / A & B
         for fn_, neg in (("call:np.setdiff1d", True), ("call:np.intersect1d", False)):
             sd = app(a[0], fn_)
@@ -376,6 +382,9 @@ def truthy(v):
     if x is not None:
         return F.fn("any", x)
     u = unfn_m(v)
+    if u and u[0] in ("call:.max", "call:np.max", "call:np.amax", "call:max", "call:.min", "call:np.min", "call:np.amin", "call:min") \
+            and len(u[1]) == 1 and not isinstance(u[1][0], str) and is_boolean(u[1][0]) and head(u[1][0]) not in ("any", "all"):
+        return F.fn("any" if "max" in u[0] else "all", u[1][0])            # the largest / smallest of truth values
     if u and u[0].startswith("cmp:") and len(u[1]) == 2:
         op, (p, q) = u[0][4:], u[1]
         flip = {"Gt": "Lt", "Lt": "Gt", "GtE": "LtE", "LtE": "GtE", "Eq": "Eq", "NotEq": "NotEq"}
@@ -398,6 +407,15 @@ def plain_first(node):
 def _binop18(node, a, b, ev):
     op = node.op
     if is_unknown(a) or is_unknown(b) or isinstance(a, tuple) or isinstance(b, tuple):
+        return NotImplemented
+    if isinstance(op, ast.Sub):
+        # X[1:] - X[:-1] is np.diff(X) (numbers; the rules read it on index vectors)
+        ia, ib = app(a, "idx"), app(b, "idx")
+        if ia and ib and len(ia) == 2 and len(ib) == 2 and same(ia[0], ib[0]):
+            sa, sb = app(ia[1], "slice"), app(ib[1], "slice")
+            if sa and sb and const_of(sa[0]) == 1 and sym_of(sa[1]) == "None" and sym_of(sa[2]) == "None" \
+                    and sym_of(sb[0]) == "None" and const_of(sb[1]) == -1 and sym_of(sb[2]) == "None":
+                return F.fn("call:np.diff", ia[0])
         return NotImplemented
     if isinstance(op, (ast.BitAnd, ast.BitOr, ast.BitXor)):
         ca, cb = const_of(a), const_of(b)
@@ -478,6 +496,109 @@ def _nonzero_test(x):
     if repr(vkey(a)) > repr(vkey(b)):
         a, b = b, a
     return F.fn("cmp:NotEq", a, b)
+
+
+def elementwise(v):
+    """a one-generator comprehension without conditions whose element is computed from the loop item alone, written as the vector expression
+    that holds the same elements:  (c > 6 for c in X) -> X > 6;  (r[1] > 6 for r in ROWS) -> ROWS[:, 1] > 6;  (a and not b for a, b in
+    zip(A, B)) -> A & ~B.  None when v is not of that form (the callers reduce the result with any / all, so only the elements matter)"""
+    a = app(v, "comp")
+    if not a or len(a) != 2:
+        return None
+    g = app(a[1], "gen")
+    if not g or len(g) != 1:
+        return None
+    elt, it = a[0], g[0]
+    names = {sym_of(x) for x in walk(elt) if (sym_of(x) or "").startswith(("@v", "@i"))}
+    if len(names) != 1 or not next(iter(names)).startswith("@v"):
+        return None
+    var = F.sym(next(iter(names)))
+    z = app(it, "call:zip")
+    bad = []
+    holes = {}          # placeholder symbol -> value (filled in last, so that bound variables inside the iterated value are not captured)
+
+    def hole(key, val):
+        nm = f"@hole{key}"
+        holes[nm] = val
+        return F.sym(nm)
+
+    def f(name, args):
+        if name == "idx" and len(args) == 2 and not isinstance(args[0], str) and same(args[0], var):
+            k = const_of(args[1])
+            if k is None or k.denominator != 1:
+                bad.append(1)
+                return None
+            if z:
+                if not -len(z) <= int(k) < len(z):
+                    bad.append(1)
+                    return None
+                return hole(int(k), z[int(k)])
+            return hole(int(k), column(it, args[1]))
+        if name in ("bool:And", "bool:Or") and len(args) >= 2 and not any(isinstance(x, str) for x in args):
+            out = args[0]
+            for y in args[1:]:
+                out = F.fn("@and" if name == "bool:And" else "@or", out, y)
+            return out
+        if name == "not" and len(args) == 1 and not isinstance(args[0], str):
+            return F.fn("@not", args[0])
+        return None
+    try:
+        r = rewrite(elt, f)
+        if bad:
+            return None
+        if any(same(x, var) for x in walk(r)):
+            if z:
+                return None
+            r = _subst_sym(r, var, hole("w", it))          # the bare item: the element of the vector iterated over
+        for nm, val in holes.items():
+            r = _subst_sym(r, F.sym(nm), val)
+
+        def order(name, args):
+            if name in ("@and", "@or") and len(args) == 2:
+                if not (is_boolean(args[0]) and is_boolean(args[1])):
+                    bad.append(1)
+                    return None
+                p, q = (args[0], args[1]) if repr(vkey(args[0])) <= repr(vkey(args[1])) else (args[1], args[0])
+                return F.fn("mask:BitAnd" if name == "@and" else "mask:BitOr", p, q)
+            if name == "@not" and len(args) == 1:
+                if not is_boolean(args[0]):
+                    bad.append(1)
+                    return None
+                return F.fn("invert", args[0])
+            return None
+        r = rewrite(r, order)
+    except Unsupported:
+        return None
+    return None if bad else r
+
+
+def _subst_sym(v, var, val):
+    """v with the symbol var replaced by the value val"""
+    memo = {}
+
+    def atom(a):
+        if a in memo:
+            return memo[a]
+        d = F.atom_desc(a)
+        r = _atom_value(a)
+        if d[0] == "s" and same(r, var):
+            r = val
+        elif d[0] == "fn":
+            args = [k if isinstance(k, str) else poly(F._poly_from_key(k[1])) / poly(F._poly_from_key(k[2])) for k in d[2]]
+            r = F.fn(d[1], *args)
+        memo[a] = r
+        return r
+
+    def poly(p):
+        res = F.const(0)
+        for m, c in p.t.items():
+            term = F.const(c)
+            for a, e in m:
+                term = term * atom(a) ** e
+            res = res + term
+        return res
+
+    return poly(v.n) / poly(v.d)
 
 
 def _sized(n):
@@ -721,6 +842,7 @@ class PathEval(AutoEvaluator):
         self._positions = []       # (position symbol @i<n>, sequence walked by position, its item @v<n>) of the index loops being evaluated
         self._brk = self._cont = False
         self.escaped = []          # values handed to calls whose result is thrown away (an opaque call statement may change them in place)
+        self.hidden = []           # compound statements that were not executed although they hold a raise / return (control flow the paths miss)
         self.module_consts = _consts(ctx, rel)
         self.aliases = dict(_lib_aliases(ctx, rel))      # import aliases of library modules / functions -> canonical dotted spelling
         a = fn.args
@@ -823,7 +945,27 @@ class PathEval(AutoEvaluator):
             return
         if isinstance(st, ast.For) and not st.orelse and self._for(st):
             return
-        if isinstance(st, (ast.For, ast.While, ast.With, ast.Try)):
+        if isinstance(st, ast.With) and not any(isinstance(n, (ast.Yield, ast.YieldFrom)) for n in ast.walk(st)):
+            # a context manager (np.errstate, warnings.catch_warnings, suppress of nothing the rules model ...) does not change a value: the
+            # body is executed in place
+            for item in st.items:
+                v = self.ev(item.context_expr)
+                if item.optional_vars is not None:
+                    self._assign(item.optional_vars, v, st)
+            self.run(st.body)
+            return
+        if isinstance(st, ast.Try):
+            # the path on which nothing is raised: body, else, finally.  The handlers are paths this evaluator does not follow: a raise /
+            # return inside them is control flow the regimes miss (`hidden`)
+            if any(isinstance(n, (ast.Raise, ast.Return)) for h in st.handlers for n in ast.walk(h)):
+                self.hidden.append(st)
+            self.run(st.body)
+            self.run(st.orelse)
+            self.run(st.finalbody)
+            return
+        if isinstance(st, (ast.For, ast.While)):
+            if any(isinstance(n, (ast.Raise, ast.Return)) for n in ast.walk(st)):
+                self.hidden.append(st)
             super().stmt(st)
             self._forget_mutated(st)
             return
@@ -1139,6 +1281,13 @@ class PathEval(AutoEvaluator):
                 except Unsupported as e:
                     self.env[nm] = Unknown(str(e))
             return
+        if isinstance(target, (ast.Tuple, ast.List)) and not isinstance(v, tuple) and not is_unknown(v) and target.elts \
+                and isinstance(target.elts[-1], ast.Starred) and not any(isinstance(t, ast.Starred) for t in target.elts[:-1]):
+            # a, b, *rest = v : the leading items by position; the rest is not a value the rules follow
+            for j, t in enumerate(target.elts[:-1]):
+                self._assign(t, F.fn("idx", need(v), F.const(j)), st)
+            self._assign(target.elts[-1].value, Unknown("starred rest of an unpacking"), st)
+            return
         if isinstance(target, (ast.Tuple, ast.List)) and not isinstance(v, tuple) and not is_unknown(v) \
                 and not any(isinstance(t, ast.Starred) for t in target.elts):
             tr = app(v, "attr:T")
@@ -1149,7 +1298,21 @@ class PathEval(AutoEvaluator):
         return super()._assign(target, v, st, aug)
 
     # ---- expressions
+    def _weighted_columns(self, x, w):
+        """X @ (c0, c1, ..) for a table X and a short vector of known weights: the sum of the columns times the weights"""
+        if is_unknown(x) or isinstance(x, tuple) or not isinstance(w, tuple) or not 1 < len(w) <= 4 \
+                or any(is_unknown(c) or isinstance(c, tuple) or const_of(c) is None for c in w):
+            return None
+        tot = F.const(0)
+        for j, c in enumerate(w):
+            tot = tot + column(x, F.const(j)) * need(c)
+        return tot
+
     def _ev(self, node):
+        if isinstance(node, ast.BinOp) and isinstance(node.op, ast.MatMult):
+            r = self._weighted_columns(self._ev(node.left), self._ev(node.right))
+            if r is not None:
+                return r
         if isinstance(node, ast.Compare) and len(node.ops) > 1:
             parts = []
             left = node.left
@@ -1380,9 +1543,19 @@ class PathEval(AutoEvaluator):
         # out=X : the call's value is also stored in X
         kout = next((k for k in node.keywords if k.arg == "out"), None)
         if kout is not None:
-            plain = ast.copy_location(ast.Call(func=node.func, args=node.args, keywords=[k for k in node.keywords if k.arg != "out"]), node)
+            kwhere = next((k for k in node.keywords if k.arg == "where"), None)
+            plain = ast.copy_location(ast.Call(func=node.func, args=node.args, keywords=[k for k in node.keywords if k.arg not in ("out", "where")]), node)
             v = self._ev(plain)
             tg = kout.value.elts[0] if isinstance(kout.value, ast.Tuple) and len(kout.value.elts) == 1 else kout.value
+            if kwhere is not None:
+                # ufunc(.., out=X, where=M): X[M] = ufunc(..)[M], the other elements of X stay
+                w = self._ev(kwhere.value)
+                if isinstance(tg, ast.Name) and not is_unknown(v) and not is_unknown(w) and not isinstance(v, tuple) and not isinstance(w, tuple) \
+                        and tg.id in self.env and not is_unknown(self.env[tg.id]) and not isinstance(self.env[tg.id], tuple):
+                    if tg.id not in self.pinned:
+                        self.env[tg.id] = F.fn("upd", need(self.env[tg.id]), need(w), F.fn("idx", need(v), need(w)))
+                    return self.env[tg.id]
+                raise Unsupported("ufunc call with out= and where=")
             if isinstance(tg, ast.Name):
                 if tg.id not in self.pinned:
                     self.env[tg.id] = v
@@ -1490,6 +1663,31 @@ class PathEval(AutoEvaluator):
             # axis=0: rows are selected, as X[i] does
             plain = ast.copy_location(ast.Call(func=node.func, args=node.args, keywords=[]), node)
             return self._hook2(plain)
+        # np.take(a, i, mode="clip") / a.take(i, mode="wrap"): a[i] with the index brought into range first
+        if (d in ("np.take", "numpy.take") or (on_value and meth == "take")) and len(node.keywords) == 1 and node.keywords[0].arg == "mode" \
+                and isinstance(node.keywords[0].value, ast.Constant) and node.keywords[0].value.value in ("clip", "wrap", "raise") \
+                and len(node.args) == (1 if on_value and meth == "take" else 2) and not any(isinstance(a, ast.Starred) for a in node.args):
+            pos, _ = self._args(node)
+            base, ix = (self._need(f.value), pos[0]) if on_value and meth == "take" else (pos[0], pos[1])
+            mode = node.keywords[0].value.value
+            if not isinstance(base, tuple) and not isinstance(ix, tuple) and not is_unknown(base) and not is_unknown(ix):
+                if mode == "clip":
+                    ix = F.fn("call:np.clip", need(ix), F.const(0), F.fn("attr:size", need(base)) - 1)
+                elif mode == "wrap":
+                    ix = F.fn("op:Mod", need(ix), F.fn("attr:size", need(base)))
+                return F.fn("idx", need(base), need(ix))
+        # np.array_equal(a, b) on two vectors of one length: every element equal
+        if d in ("np.array_equal", "numpy.array_equal", "np.array_equiv") and plain2:
+            (a, b), _ = self._args(node)
+            if not isinstance(a, tuple) and not isinstance(b, tuple) and not is_unknown(a) and not is_unknown(b):
+                return F.fn("all", F.fn("cmp:Eq", need(a), need(b)))
+        # X.dot((c0, c1)) / np.dot(X, (c0, c1)): the weighted sum of the columns
+        if (d in ("np.dot", "numpy.dot", "np.matmul") and plain2) or (on_value and meth == "dot" and plain1):
+            pos, _ = self._args(node)
+            x, w = (self._need(f.value), pos[0]) if on_value and meth == "dot" else (pos[0], pos[1])
+            r = self._weighted_columns(x, w)
+            if r is not None:
+                return r
         if (d in ("np.take", "numpy.take") and plain2) or (on_value and meth == "take" and plain1):
             pos, _ = self._args(node)
             base, ix = (pos[0], pos[1]) if meth != "take" or not on_value else (self._need(f.value), pos[0])
@@ -1542,6 +1740,8 @@ class PathEval(AutoEvaluator):
         # reductions
         if d in _REDUCE and len(node.args) == 1 and not node.keywords:
             (x,), _ = self._args(node)
+            if not isinstance(x, tuple) and not is_unknown(x) and head(x) == "comp":
+                x = elementwise(x) if elementwise(x) is not None else x        # any(f(c) for c in X) is any(f(X))
             return F.fn(_REDUCE[d], wrap(_nonzero_test(x) if _REDUCE[d] == "any" else x))
         if on_value and meth in ("any", "all") and not node.args and not node.keywords:
             x = self._need(f.value)
@@ -1669,6 +1869,7 @@ class PathEval(AutoEvaluator):
         env.update(bound)
         sub = PathEval(callee, self.ctx, rel or self.rel, self.decisions, self.trace, self.sites, self.depth + 1, env=env)
         sub.escaped = self.escaped
+        sub.hidden = self.hidden
         gen = _has_yield(callee)
         if gen:
             # a generator function: the call stands for the sequence of the values it yields, in the order it yields them
@@ -1694,6 +1895,7 @@ class Path:
         self.ret = ev.returns[-1][0] if (ev.returns and ev.raised is None) else None
         self.ret_node = ev.returns[-1][1] if ev.returns else None
         self.returned = bool(ev.returns) and ev.raised is None
+        self.hidden = list(ev.hidden)
 
     def decided(self, atom):
         """truth of a test value on this path: True / False / None (the path never tested it)"""
@@ -1749,6 +1951,8 @@ def explore(ctx, rel, qual, pinned=None):
             work.append({**dec, e.key: True})
             continue
         out.append(Path(ev, dec, trace, sites))
+        if ev.hidden:
+            ctx.__dict__.setdefault("_c18_hidden", []).extend((qual, h) for h in ev.hidden)
         if len(out) > MAX_PATHS:
             raise Unsupported(f"{qual}: too many regimes")
     return fn, out
